@@ -259,7 +259,7 @@ def apply_update(name, P, o, frozen=False):
         for a in (s.exps, s.coeffs, s.coord):
             a.flags.writeable = True
         if name == "upd_exps_inplace":
-            s.exps[:] = s.exps * (0.5 + r[0])
+            s.exps[:] = s.exps * 10.0 ** (2.6 * r[0] - 1.3)
         elif name == "upd_coeffs_inplace":
             s.coeffs[:] = s.coeffs * (0.5 + r[0]) + 0.1 * r[1]
         else:
@@ -271,7 +271,7 @@ def apply_update(name, P, o, frozen=False):
     if name == "upd_coeffs":
         s.coeffs = np.array(s.coeffs) * (0.5 + r[0]) + 0.1 * r[1]
     elif name == "upd_exps":
-        s.exps = np.array(s.exps) * (0.5 + r[0])
+        s.exps = np.array(s.exps) * 10.0 ** (2.6 * r[0] - 1.3)
     else:
         s.coord = np.array(s.coord) + np.array(r[:3]) - 0.5
     s.assign_norm_cont()
@@ -359,6 +359,10 @@ def run_history(case, pool, mode, viols, pass_name):
             rec.append((o, None, None, None))
             continue
         if name.startswith("upd_"):
+            # derived quantities a library might memoise per shell are touched BEFORE the update (screened and plain
+            # overlap, kinetic energy), so that anything stale afterwards is observable
+            for tol_ in (None, 1e-1, 1e-3, 1e-6, 1e-10):
+                cm.call(overlap_integral, list(pool["basis"]), tol_screen=tol_)
             s = apply_update(name, pool, o, frozen)
             S = cm.call(overlap_integral, [s])
             evals += 1
@@ -377,6 +381,10 @@ def run_history(case, pool, mode, viols, pass_name):
 
             fresh = [_G(int(x.angmom), np.array(x.coord), np.array(x.coeffs), np.array(x.exps), x.coord_type) for x in pool["basis"]]
             for nm, fn in (("overlap_integral", lambda b: overlap_integral(b)), ("kinetic_energy_integral", lambda b: _kin(b)),
+                           ("overlap_integral(tol_screen=1e-1)", lambda b: overlap_integral(b, tol_screen=1e-1)),
+                           ("overlap_integral(tol_screen=1e-3)", lambda b: overlap_integral(b, tol_screen=1e-3)),
+                           ("overlap_integral(tol_screen=1e-6)", lambda b: overlap_integral(b, tol_screen=1e-6)),
+                           ("overlap_integral(tol_screen=1e-10)", lambda b: overlap_integral(b, tol_screen=1e-10)),
                            ("evaluate_deriv_basis", lambda b: _edb(b, np.array(pool["pts"]), np.array([1, 0, 1]))),
                            ("point_charge_integral", lambda b: _pc(b, np.array(pool["pts"]), np.array(pool["chg"])))):
                 a1, a2 = cm.call(fn, list(pool["basis"])), cm.call(fn, fresh)
